@@ -27,7 +27,10 @@ RULE = ("TLC (GEN_SpatialIndex_[a-f].cfg) emits 12 lanelet families (disjoint, e
         "add_from_network, scenario_add} and follow-ups {deepcopy, deepcopy_orig, pickle, xml, pb, xml_net, pb_net, "
         "from_network(4 cut shapes), remove(id), translate_rotate(4 lattice motions), add_extra(rtree 1/0), add_extra_net, "
         "remove_nortree(id)}; after a DEFERRED step (rtree=False) on a from_list(0) network one more step is always explored, "
-        "so every 'deferred step, then each rebuilding operation, then queries' sequence is executed; per family the query points are the "
+        "so every 'deferred step, then each rebuilding operation, then queries' sequence is executed; TWO-NETWORK histories: from a "
+        "from_list(0) network A a second network B is derived (fork_list(cleanup 0/1), fork_network, fork_network_cut(2 cuts), "
+        "fork_deepcopy) and mutated (translate_rotate, remove, add_extra; quick: a sample), then B AND A are queried, A against its "
+        "own current lanelets, and every step logs A's lanelets before / after (clause C06.Route/isolated); per family the query points are the "
         "17 x 13 doubled lattice (lattice points, edge mid points, cell centres) + 3 far points grouped by TLC into position "
         "classes, and query shapes of 5 kinds (axis rectangles, quarter-turn rectangles, 3-4-5 rectangles, discs, polygons) "
         "classified by TLC (inside / overlapping / reaching / touching(-edge/-corner) / disjoint), PerClass kept per class; "
@@ -62,7 +65,7 @@ def _gen_cfgs(ctx):
 
 
 def _run_gen(cfg):
-    cases, r = tlc.generate("MC_SpatialIndex", cfg, "C06_" + cfg.replace(".cfg", ""), timeout=2400)
+    cases, r = tlc.generate("MC_SpatialIndex", cfg, "C06_" + cfg.replace(".cfg", ""), timeout=2400, xmx="2g")
     return cfg, cases, r
 
 
@@ -72,12 +75,12 @@ def model_check(ctx):
     tag = lambda cfg: "%s_%s" % (PROPERTY, cfg.replace(".cfg", ""))
     # quick: all families, sequences <= 2 + one family (4 lanelets), sequences <= 3 ; thorough: all families, sequences <= 3
     mcs = [("MC_SpatialIndex4.cfg", 8)] if ctx.thorough else [("MC_SpatialIndex.cfg", 3), ("MC_SpatialIndex3.cfg", 3)]
-    with cf.ThreadPoolExecutor(max_workers=16) as ex:
+    with cf.ThreadPoolExecutor(max_workers=10) as ex:       # small heaps: up to 10 JVMs side by side
         gen = [ex.submit(_run_gen, c) for c in _gen_cfgs(ctx)]
-        mc = [ex.submit(tlc.model_check, "MC_SpatialIndex", cfg, tag(cfg), coverage=True, workers=w) for cfg, w in mcs]
+        mc = [ex.submit(tlc.model_check, "MC_SpatialIndex", cfg, tag(cfg), coverage=True, workers=w, xmx="3g") for cfg, w in mcs]
         dev = [ex.submit(tlc.expect_violation, "MC_SpatialIndex", "DEV_SpatialIndex_%d.cfg" % i,
-                         tag("DEV_SpatialIndex_%d.cfg" % i), "IndexMirrors" if i != 6 else "QueriesExact", workers=1)
-               for i in (1, 2, 3, 4, 5, 7, 6)]    # 7 = DEV_DeferredRemoveKeepsPolygon (seed C06-2); 6 = DEV_DiscHalfRadius (known finding)
+                         tag("DEV_SpatialIndex_%d.cfg" % i), {6: "QueriesExact", 8: "OriginalIsolated"}.get(i, "IndexMirrors"), workers=1, xmx="1g")
+               for i in (1, 2, 3, 4, 5, 7, 8, 6)]  # 7 = DEV_DeferredRemoveKeepsPolygon (seed C06-2), 8 = DEV_ForkSharesLanelets (seed C06-5), 6 = DEV_DiscHalfRadius
         for f in mc:
             ctx._acc(f.result(), "holds")
         for f in dev:
@@ -118,12 +121,15 @@ def cases(ctx):
                         shapes.append(s)
             if len(c["routes"]) >= 3 and not ctx.thorough:               # deferred step + one more: axis rectangles and polygons
                 shapes = [q for q in shapes if q["kind"] in ("rect0", "poly")]
+            forked = any(q["r"].startswith("fork_") for q in c["routes"])
+            if forked and not ctx.thorough and not _fork_sample(c["routes"], f):
+                continue
             points = f["points"]
             if not full and not ctx.thorough:                            # ... and every third of the many points outside
                 points = [dict(g, pts=g["pts"][::3]) if g["cls"] == "outside" else g for g in points]
             out.append({"kind": "net", "fam": c["fam"], "lanelets": f["lanelets"], "net": f["net"], "routes": c["routes"],
                         "cuts": f["cuts"], "extra": f["extra"], "points": points, "shapes": shapes, "src": "tlc",
-                        "obstacles": f["obstacles"] if full or (ctx.thorough and len(c["routes"]) == 2) else [],
+                        "obstacles": f["obstacles"] if full or forked or (ctx.thorough and len(c["routes"]) == 2) else [],
                         "xpolys": c["polys"]})
         elif c["kind"] == "shape":
             for r in _SHAPE_ROUTES:
@@ -146,6 +152,19 @@ def cases(ctx):
                                           if g["cls"] == "band" or (g["cls"] in ("boundary", "vertex") and (
                                               c["sroute"] == "rotate" or (c["shape"]["k"] == "rect" and c["shape"]["rot"] != _ID))))}
     return out
+
+
+def _fork_sample(routes, f):
+    """Quick tier: of the mutations of a derived network keep a pure translation, a quarter turn, the removal of the first
+    lanelet and the addition of the extra lanelet (thorough keeps all)."""
+    last = routes[-1]
+    if last["r"].startswith("fork_"):
+        return True
+    if last["r"] == "translate_rotate":
+        return last["a"] in ([2, -2, 0], [-6, 4, 3])
+    if last["r"] == "remove":
+        return last["a"][0] == f["net"][0]["id"]
+    return last["r"] == "add_extra" and last["a"] == [1]
 
 
 def _random_cases(ctx, fams):
@@ -458,25 +477,48 @@ def _occ(ob, t):
     return [] if o is None else [a_shape(o.shape)]
 
 
+def _fork(route, net, cuts):
+    """A second network derived from `net` (which is kept by the caller)."""
+    from commonroad.scenario.lanelet import LaneletNetwork
+    r, a = route["r"], route["a"]
+    if r == "fork_list":
+        return LaneletNetwork.create_from_lanelet_list(net.lanelets, cleanup_ids=bool(a[0]))
+    if r == "fork_network":
+        return LaneletNetwork.create_from_lanelet_network(net)
+    if r == "fork_network_cut":
+        return LaneletNetwork.create_from_lanelet_network(net, shape_input=g_shape(cuts[a[0] - 1]))
+    if r == "fork_deepcopy":
+        return copy.deepcopy(net)
+    raise MachineryError("C06: unknown derivation %r" % (route,))
+
+
 def _exec_net(case):
-    import numpy as np
     ev = []
     routes = case["routes"]
     obstacles = [g_obstacle(o) for o in case["obstacles"]]
     base = case["net"]
     net = None
+    other, a_routes, a_label, a_base = None, None, None, None          # the ORIGINAL network once a second one is derived
     for i, rt in enumerate(routes):
         e = {"op": "route", "route": rt["r"], "a": rt["a"], "base": base, "routes": routes[:i + 1], "polys": [], "exc": "",
              "sig": "route/" + rt["r"]}
-        if rt["r"] == "from_network":
+        if rt["r"] in ("from_network", "fork_network_cut"):
             e["cut"] = case["cuts"][rt["a"][0] - 1]
             e["sig"] += "/" + _KIND[e["cut"]["k"]]
         try:
             if i == 0:
                 net = _build(rt, g_lanelets(case["lanelets"]))
+            elif rt["r"].startswith("fork_"):
+                other, a_routes, a_base = net, routes[:i], base
+                a_label = rt["r"] + (str(rt["a"][0]) if rt["r"] == "fork_list" else "")
+                net = _fork(rt, other, case["cuts"])
             else:
                 net, obstacles = _follow(rt, net, obstacles, case["cuts"], case["extra"])
             e["polys"] = a_net(net)
+            if other is not None:                                       # what the step did to the lanelets of the original
+                e["abase"], e["apolys"] = a_base, a_net(other)
+                e["sig"] = "route/%s/after-%s" % (rt["r"], a_label)
+                a_base = e["apolys"]
         except MachineryError:
             raise
         except Exception as ex:
@@ -485,10 +527,20 @@ def _exec_net(case):
             return {"ev": ev}
         ev.append(e)
         base = e["polys"]
-    polys = base
-    last = routes[-1]["r"]
+    lite = len(routes) >= 3 and not case["obstacles"]
+    if other is None:
+        _queries(ev, case, net, base, routes, routes[-1]["r"], obstacles, "none" if not obstacles else "full", not lite)
+    else:
+        _queries(ev, case, net, base, routes, routes[-1]["r"], [], "none", False)
+        _queries(ev, case, other, a_base, a_routes, "original-after-" + a_label, obstacles, "lite", True)
+    return {"ev": ev}
+
+
+def _queries(ev, case, net, polys, routes, label, obstacles, obs_level, with_contains):
+    """All lookups on one network; `polys` = its lanelet polygons read back just now, `routes` = ITS history."""
+    import numpy as np
     motions = [r["a"] for r in routes if r["r"] == "translate_rotate"]
-    common = {"route": last, "routes": routes, "polys": polys}
+    common = {"route": label, "routes": routes, "polys": polys}
 
     def mv_pt(p):
         for m in motions:
@@ -510,33 +562,35 @@ def _exec_net(case):
         pts = [mv_pt(p) for p in g["pts"]]
         all_pts += pts
         e = dict(common, op="find_by_position", pts=pts, res=[], exc="",
-                 sig="find_by_position/route=%s/%s" % (last, g["cls"]) if polys else "find_by_position/empty-network")
+                 sig="find_by_position/route=%s/%s" % (label, g["cls"]) if polys else "find_by_position/empty-network")
         try:
             res = net.find_lanelet_by_position([_pt(p) for p in pts])
             e["res"] = [[int(x) for x in r] for r in res]
         except Exception as ex:
             e["exc"] = _exc(ex)
         ev.append(e)
-    for la in sorted(net.lanelets, key=lambda q: q.lanelet_id) if len(routes) < 3 or case["obstacles"] else []:
+    for la in sorted(net.lanelets, key=lambda q: q.lanelet_id) if with_contains else []:
         e = dict(common, op="contains_points", lid=int(la.lanelet_id), pts=all_pts, res=[], exc="",
-                 sig="contains_points/route=%s" % last)
+                 sig="contains_points/route=%s" % label)
         try:
             e["res"] = [int(bool(b)) for b in la.contains_points(np.array([_pt(p) for p in all_pts]))]
         except Exception as ex:
             e["exc"] = _exc(ex)
         ev.append(e)
+    orig = label.startswith("original-")
     for s in shapes:
         d = mv_shape(s["shape"])
         e = dict(common, op="find_by_shape", shape=d, res=[], exc="",
-                 sig="find_by_shape/%s/%s" % (s["kind"], s["cls"]) if polys else "find_by_shape/empty-network")
+                 sig=("find_by_shape/%s%s/%s" % ("original/" if orig else "", s["kind"], s["cls"])) if polys
+                 else "find_by_shape/empty-network")
         try:
             e["res"] = [int(x) for x in net.find_lanelet_by_shape(g_shape(d))]
         except Exception as ex:
             e["exc"] = _exc(ex)
         ev.append(e)
-    if obstacles:
+    if obstacles and obs_level != "none":
         t0 = {o["id"]: o["t0"] for o in case["obstacles"]}
-        for t in (0, 1, 2):
+        for t in (0, 1, 2) if obs_level == "full" else (0,):
             present = [ob for ob in obstacles if t0[ob.obstacle_id] <= t]
             obs = [{"id": int(ob.obstacle_id), "occ": _occ(ob, t)} for ob in present]
             for la in sorted(net.lanelets, key=lambda q: q.lanelet_id):
@@ -550,7 +604,7 @@ def _exec_net(case):
         obs_all = [{"id": int(ob.obstacle_id), "occ": _occ(ob, 0)} for ob in obstacles]
         present = [ob for ob in obstacles if t0[ob.obstacle_id] <= 0]
         obs_p = [o for o in obs_all if t0[o["id"]] <= 0]
-        for la in sorted(net.lanelets, key=lambda q: q.lanelet_id)[:1]:      # (the network may be empty after a cut-out)
+        for la in sorted(net.lanelets, key=lambda q: q.lanelet_id)[:1] if obs_level == "full" else []:
             e = dict(common, op="get_obstacles", lid=int(la.lanelet_id), t=0, obs=obs_all, res=[], exc="",
                      sig="get_obstacles/absent-at-t")
             try:
@@ -558,7 +612,7 @@ def _exec_net(case):
             except Exception as ex:
                 e["exc"] = _exc(ex)
             ev.append(e)
-        for lst, obs, tag in ((present, obs_p, "present"), (obstacles, obs_all, "absent-at-0")):
+        for lst, obs, tag in ((present, obs_p, "present"), (obstacles, obs_all, "absent-at-0"))[:2 if obs_level == "full" else 1]:
             e = dict(common, op="map_obstacles", obs=obs, res=[], exc="", sig="map_obstacles/" + tag)
             try:
                 m = net.map_obstacles_to_lanelets(lst)
@@ -572,7 +626,6 @@ def _exec_net(case):
             except Exception as ex:
                 e["exc"] = _exc(ex)
             ev.append(e)
-    return {"ev": ev}
 
 
 # ---------------------------------------------------------------------------------------------- part 2: shapes
